@@ -20,7 +20,7 @@ func init() {
 			"every subset of the cut-candidate set K (0,1,2,7,8,9, T-9..T+9, 32767, 32768, 65535..65537, |D|-1, |D| and the Flush positions) of size <=1 and every pair from the reduced set (quick) / every subset of size <=2 plus triples of the reduced set, the all-candidates partition and the 1-byte partition (thorough), " +
 			"each also with a zero-length Write before or after every Write and every Flush; oracle: emitted bytes identical to the one-Write-per-Flush-segment run; non-trivial = at least one cut strictly inside the data",
 		Assumptions: []string{"none beyond the engine: the reference is the same Writer type fed the same data in one piece"},
-		Quick:       TierSpec{MaxDev: -1, Shards: 4, ShardDepth: 3, BudgetS: 150},
+		Quick:       TierSpec{MaxDev: -1, Shards: 4, ShardDepth: 3, BudgetS: 600},
 		Thorough:    TierSpec{MaxDev: -1, Shards: 8, ShardDepth: 3, BudgetS: 1700},
 		Harness:     c09Harness,
 	})
